@@ -53,10 +53,14 @@ func loadKnown() (map[string]KnownFinding, error) {
 }
 
 type harnessRef struct {
-	dir  string // package dir relative to repo root
-	fn   string
-	tier string // "" = both, "thorough" = thorough only
+	dir    string // package dir relative to repo root
+	fn     string
+	tier   string // "" = both, "thorough" = thorough only
+	shards int    // top-level Choose farmed out over this many workers
+	shard  int
 }
+
+var shardsRe = regexp.MustCompile(`verif:shards=([0-9]+)`)
 
 var verifFuncRe = regexp.MustCompile(`^Verif(C[0-9]{2,3})`)
 
@@ -90,6 +94,19 @@ func findHarnesses(id string) ([]harnessRef, error) {
 			if fd.Doc != nil && strings.Contains(fd.Doc.Text(), "verif:thorough-only") {
 				hr.tier = "thorough"
 			}
+			if fd.Doc != nil {
+				if m := shardsRe.FindStringSubmatch(fd.Doc.Text()); m != nil {
+					hr.shards, _ = strconv.Atoi(m[1])
+				}
+			}
+			if hr.shards > 1 {
+				for k := 0; k < hr.shards; k++ {
+					h2 := hr
+					h2.shard = k
+					out = append(out, h2)
+				}
+				continue
+			}
 			out = append(out, hr)
 		}
 		return nil
@@ -98,7 +115,10 @@ func findHarnesses(id string) ([]harnessRef, error) {
 		if out[i].dir != out[j].dir {
 			return out[i].dir < out[j].dir
 		}
-		return out[i].fn < out[j].fn
+		if out[i].fn != out[j].fn {
+			return out[i].fn < out[j].fn
+		}
+		return out[i].shard < out[j].shard
 	})
 	return out, err
 }
@@ -193,13 +213,19 @@ func cmdCheck(id, tier string) int {
 			sem <- struct{}{}
 			defer func() { <-sem }()
 			b := defaultBounds()
+			b.WallS = 300
+			if v := os.Getenv("GOSYM_BUDGET"); v != "" {
+				fmt.Sscan(v, &b.WallS)
+			}
 			if tier == "thorough" {
+				b.WallS *= 8
 				b.QueryMs = 120_000
 				b.MaxSteps *= 10
 				b.MaxDecisions *= 4
 			}
 			w := NewWorld(ld.pi, b)
 			w.seed = seed
+			w.shard, w.nshards = h.shard, h.shards
 			pkg := dirPkg[h.dir]
 			results[i] = w.Explore(Harness{Pkg: pkg, Func: h.fn}, open)
 			fmt.Fprintf(os.Stderr, "[%s] %s: paths=%d queries=%d wall=%v\n", id, h.fn, results[i].Paths, results[i].Solver.Queries, results[i].Wall.Round(1e7))
